@@ -85,3 +85,16 @@ func TestRegressKnownMsgpackAlloc(t *testing.T) {
 	n := allocated(func() { _ = mpDecode(in, &p) })
 	ev.KnownFinding(KFAlloc, n > 100<<20, fmt.Sprintf("msgpack decode of the 8-byte input %x into api.Pin allocates %d MiB (array32 length is trusted when decoding into a byte-string field)", in, n>>20))
 }
+
+// fixed (repair 35): a msgpack pin whose origins list holds a nil entry
+// decoded into a pin that could not be encoded, stored or served again
+// (found by FuzzMsgpackPin in the thorough tier).
+func TestRegressNilOriginRefused(t *testing.T) {
+	in := []byte("\x88\xa1g\x91\xc0\xc00\xc00\xc00\xc00\xc00\xc00\xc00")
+	var p api.Pin
+	if err := mpDecode(in, &p); err == nil {
+		if _, eerr := mpEncode(&p); eerr != nil {
+			t.Fatalf("a pin with a nil origin was decoded without error and cannot be encoded again: %v", eerr)
+		}
+	}
+}
